@@ -233,3 +233,16 @@ CHECKS["C07"] = {
         {"pkg": SERVER, "run": "^TestVerif_C07_AdminGate$", "checks": {"quick": 60, "thorough": 3000}, "shards": {"thorough": 8}, "timeout": {"quick": 600}},
     ],
 }
+
+CHECKS["C09"] = {
+    "level": "exploration",
+    "technique": "rapid-generated hostile peers (random bytes with every first byte, TLS records of any declared length, mutated/truncated/replayed/wrong-key Cloak hellos, HTTP requests with bogus hidden headers and over-long lines) with generated segmentation, stalls past the 15 s deadline, early closes and redirect-target scripts, against dispatchConnection in a synctest bubble; oracle = reference relay built on an independent first-packet-boundary function; native go fuzzing of the first-packet path in the thorough tier",
+    "level_text": "For every generated peer the redirect target must receive a byte-exact prefix of the peer's stream - all of it once the first packet is complete (by the independent boundary rule) and the target stays open - the peer must receive exactly the target's bytes and never a byte the target did not send, a peer that never completes its first packet within the deadline must reach the target with nothing and be closed, and afterwards a fresh valid client must still complete a handshake on the same server state (no crash, no wedge, no leaked blocked goroutine).",
+    "level_note": "Redirect-dial failures are outside the property's domain and are not generated. Delays avoid the exact 15 s instant.",
+    "rule": "rapid draws class, content, <=5 cuts with delays from {0,1,200,3000,14000,16000 ms}, peer close time, <=4 reply chunks and the target's close time; non-trivial = the stream starts with 0x16 or 'G' and completes a first packet in time (it reaches a parser); distinct = distinct scenarios.",
+    "assumptions": ["kit/tlsref.go FirstPacketEnd states the intended first-packet boundary (TLS record or HTTP head in a 3000-byte buffer)"],
+    "jobs": [
+        {"pkg": SERVER, "run": "^TestVerif_C09_Redirect$", "checks": {"quick": 1200, "thorough": 150000}, "shards": {"thorough": 16}, "timeout": {"quick": 600}},
+        {"pkg": SERVER, "run": "^$", "tiers": ["thorough"], "fuzz": {"target": "^FuzzVerifFirstPacket$", "seconds": {"quick": 0, "thorough": 180}}},
+    ],
+}
